@@ -5,7 +5,7 @@
     pivoting rule); [mx n n M] = the n x n MathComp matrix of the entries of M; [\det] = MathComp's
     determinant (Leibniz formula). *)
 From mathcomp Require Import all_ssreflect all_fingroup all_algebra.
-From LP Require Import Num C04_Model C05_Model C04_Proofs_Struct C04_Proofs_Laws C05_Proofs C05_Proofs_Complete.
+From LP Require Import Num C04_Model C05_Model C04_Proofs_Struct C04_Proofs_Laws C05_Proofs C05_Proofs_Complete C05_Proofs_Seq.
 Import GRing.Theory.
 Local Open Scope ring_scope.
 
@@ -78,7 +78,51 @@ Theorem C05_inverse_exits (M : mat F) :
   (forall n, wf_mat M -> mrows M = n.+1 -> mcols M = n.+1 -> \det (mx n.+1 n.+1 M) = 0 -> inverse Ops M = Exit).
 Proof. exact (@inverse_exits F absF sqrtF ltF leF M). Qed.
 Print Assumptions C05_inverse_exits.
+(** call histories on one object, exact arithmetic: whatever was asked of the object before (Determinant(), Invertible(),
+    Inverse(), ...) and however it got its entries A, after  M += B  (M -= B) Determinant() is the determinant of the sum
+    (difference) and Invertible() says whether that vanishes *)
+Theorem C05_seq_det_after_update n (h : list (@sop F)) (M0 A B : mat F) (outs : list (@sout F)) :
+  srun Ops h M0 = Ok (A, outs) ->
+  wf_mat A -> mrows A = n.+1 -> mcols A = n.+1 -> mrows B = n.+1 -> mcols B = n.+1 ->
+  (exists A', [/\ wf_mat A', mx n.+1 n.+1 A' = mx n.+1 n.+1 A + mx n.+1 n.+1 B &
+     srun Ops (h ++ [:: UAdd B; @QDet F; @QInvertible F]) M0 =
+     Ok (A', (outs ++ [:: @ONone F; ODet (\det (mx n.+1 n.+1 A + mx n.+1 n.+1 B));
+                          @OFlag F (\det (mx n.+1 n.+1 A + mx n.+1 n.+1 B) != 0)])%list)]) /\
+  (exists A', [/\ wf_mat A', mx n.+1 n.+1 A' = mx n.+1 n.+1 A - mx n.+1 n.+1 B &
+     srun Ops (h ++ [:: USub B; @QDet F; @QInvertible F]) M0 =
+     Ok (A', (outs ++ [:: @ONone F; ODet (\det (mx n.+1 n.+1 A - mx n.+1 n.+1 B));
+                          @OFlag F (\det (mx n.+1 n.+1 A - mx n.+1 n.+1 B) != 0)])%list)]).
+Proof. exact (@seq_det_after_update F absF sqrtF ltF leF n h M0 A B outs). Qed.
+Print Assumptions C05_seq_det_after_update.
 End AnyField.
+
+Section AnyArithmetic.
+(** Call histories on ONE Matrix object ([srun]: queries Determinant / Invertible / Inverse / Orthogonal / on a copy /
+    of the transpose / of a sub-matrix, updates += -= [i][j]= swap = Assign Resize Delete_Row Delete_Column), for EVERY
+    instance of the arithmetic - in particular the IEEE doubles on which the extracted model runs:
+    "Determinant returns the determinant of every square matrix", "Invertible is true exactly when ...", "Inverse returns X"
+    are statements about the matrix, so the answers must not depend on what the object was asked or how it was changed before. *)
+Context {T : Type} (AOps : NumOps T).
+(** the answer after any history is the answer [squery M q] for the current entries M, and the entries stay M *)
+Theorem C05_seq_answer_after_history (h : list (@sop T)) (q : @sop T) (M0 M : mat T) (outs : list (@sout T)) :
+  srun AOps h M0 = Ok (M, outs) -> is_query q ->
+  srun AOps (h ++ [:: q]) M0 = rbind (squery AOps M q) (fun a => Ok (M, (outs ++ [:: a])%list)).
+Proof. exact (@seq_answer_after_history T AOps h q M0 M outs). Qed.
+Print Assumptions C05_seq_answer_after_history.
+(** two histories, on the same or on different objects, that lead to the same entries are answered alike *)
+Theorem C05_seq_history_independent (h1 h2 : list (@sop T)) (q : @sop T) (M1 M2 M : mat T) (o1 o2 : list (@sout T)) :
+  srun AOps h1 M1 = Ok (M, o1) -> srun AOps h2 M2 = Ok (M, o2) -> is_query q ->
+  (srun AOps (h1 ++ [:: q]) M1 = Exit <-> srun AOps (h2 ++ [:: q]) M2 = Exit) /\
+  (forall a, srun AOps (h1 ++ [:: q]) M1 = Ok (M, (o1 ++ [:: a])%list) <->
+             srun AOps (h2 ++ [:: q]) M2 = Ok (M, (o2 ++ [:: a])%list)).
+Proof. exact (@seq_history_independent T AOps h1 h2 q M1 M2 M o1 o2). Qed.
+Print Assumptions C05_seq_history_independent.
+(** queries alone never change the entries *)
+Theorem C05_seq_queries_keep_entries (h : list (@sop T)) (M0 M : mat T) (outs : list (@sout T)) :
+  List.forallb (@is_query T) h -> srun AOps h M0 = Ok (M, outs) -> M = M0.
+Proof. exact (@seq_queries_keep_entries T AOps h M0 M outs). Qed.
+Print Assumptions C05_seq_queries_keep_entries.
+End AnyArithmetic.
 
 Section RealField.
 (** Here the pivoting rule matters: fabs = `|x| and > = the order of an arbitrary real field
